@@ -144,7 +144,12 @@ class CFG:
         return not (seen & set(dst_set))
 
 
-def ccp_reachable(body, start, unwind=False):
+def ccp_dominates(body, a, x):
+    """every feasible path (under ccp_reachable's constant / variant propagation) from the entry to x passes a"""
+    return a == x or x not in ccp_reachable(body, 0, avoid={a})
+
+
+def ccp_reachable(body, start, unwind=False, avoid=()):
     """blocks reachable from `start` under conditional constant propagation of locals that are
     assigned literal bool / integer constants (drop flags, `matches!` results): a switch on a
     local whose value is a known constant follows only the matching edge.  Forward dataflow with
@@ -171,6 +176,11 @@ def ccp_reachable(body, start, unwind=False):
                         l = F.op_local(rv[1])
                         if l is not None and l in st:
                             val = st[l]
+                # the variant an enum value was built with (`_0 = Err(..)`), its copies, and the discriminant read from it
+                if rv[0] == "aggregate" and rv[1].get("k") == "adt" and rv[1].get("vi") is not None:
+                    val = ("v", rv[1]["vi"])
+                if rv[0] == "discr" and len(rv[1]) == 1 and isinstance(st.get(rv[1][0]), tuple):
+                    val = st[rv[1][0]][1]
                 if val is None:
                     st.pop(tgt, None)
                 else:
@@ -179,7 +189,21 @@ def ccp_reachable(body, start, unwind=False):
                 pass
         t = blk["term"]
         if t["k"] == "call" and t.get("dest") and len(t["dest"]) == 1:
-            st.pop(t["dest"][0], None)
+            keep = None
+            if F.callee_name(t).endswith("::branch") and t["args"]:
+                # `?` on a Result / Option whose variant is known: Ok -> Continue (0), Err -> Break (1); Some -> Continue, None -> Break
+                al = F.op_local(t["args"][0])
+                if al is not None and isinstance(st.get(al), tuple):
+                    vi = st[al][1]
+                    ty = body["locals"][al]["s"]
+                    if ty.startswith("std::result::Result<"):
+                        keep = ("v", vi)
+                    elif ty.startswith("std::option::Option<"):
+                        keep = ("v", 1 - vi)
+            if keep is None:
+                st.pop(t["dest"][0], None)
+            else:
+                st[t["dest"][0]] = keep
         succs = F.succ(body, b, unwind)
         if t["k"] == "switch":
             l = F.op_local(t["discr"])
@@ -191,6 +215,8 @@ def ccp_reachable(body, start, unwind=False):
                         tg = at
                 succs = [tg if tg is not None else t["otherwise"]]
         for s2 in succs:
+            if s2 in avoid:
+                continue
             if s2 not in state:
                 state[s2] = dict(st)
                 work.append(s2)
